@@ -16,7 +16,7 @@ std::vector<W> base_weights() {
             {"P_REQUEST", 3}, {"P_CREATE_PRIVATE", 1}, {"P_WRITE", 6}, {"P_FILL", 1}, {"P_DROP", 1}, {"P_COPY", 1},
             {"BAD_FACE", 0}, {"BAD_CELL", 0}, {"FORK_COPY", 0}, {"FORK_ASSIGN", 0}, {"FORK_CROSS", 0}, {"P_POS_PERSIST", 0}, {"FORK_SELF", 0}, {"DESTROY", 0}, {"USE", 0},
             {"P_CREATE_SHARED", 0}, {"P_CREATE_PERSISTENT", 0}, {"P_GET", 0}, {"P_EXISTS", 0}, {"P_SET_SHARED", 0}, {"P_SET_PERSISTENT", 0},
-            {"P_SET_NAME", 0}, {"P_MOVE", 0}, {"P_CLEAR_KIND", 0}, {"P_CLEAR_ALL", 0}, {"COLLAPSE", 0}, {"RESTART", 0}, {"ROUNDTRIP", 0}, {"FAULT_LOAD", 0}, {"SWEEP", 0}, {"SET_POS", 0}, {"BIG", 0}, {"BIG_VALENCE", 0}, {"OPEN_CELL", 0}, {"OBSERVE", 1}};
+            {"P_SET_NAME", 0}, {"P_MOVE", 0}, {"P_CLEAR_KIND", 0}, {"P_CLEAR_ALL", 0}, {"COLLAPSE", 0}, {"RESTART", 0}, {"ROUNDTRIP", 0}, {"FAULT_LOAD", 0}, {"SWEEP", 0}, {"SET_POS", 0}, {"BIG", 0}, {"BIG_VALENCE", 0}, {"OPEN_CELL", 0}, {"OBSERVE", 1}, {"RESERVE", 1}};
 }
 void setw(std::vector<W> &w, const char *k, int v) { for (auto &x : w) if (!strcmp(x.kind, k)) x.w = v; }
 void mulw(std::vector<W> &w, const char *prefix, int num, int den = 1) { for (auto &x : w) if (!strncmp(x.kind, prefix, strlen(prefix))) x.w = x.w * num / den; }
@@ -37,7 +37,7 @@ struct HistWorld : World {
         if (prop == "C14") p.kernel = "poly";
         // per-property workload emphasis
         if (prop == "C02") { mulw(w, "DEL_", 3); setw(w, "MODE", 5); setw(w, "CLEAR", 1); setw(w, "BU", 3); }
-        if (prop == "C03") { if (p.kernel == "tet") setw(w, "COLLAPSE", 5); mulw(w, "P_", 2); mulw(w, "DEL_", 2); mulw(w, "SWAP_", 2); setw(w, "GC", 5); setw(w, "CLEAR", 1); setw(w, "P_CREATE_PERSISTENT", 1); setw(w, "P_CREATE_SHARED", 1); }
+        if (prop == "C03") { if (p.kernel == "tet") setw(w, "COLLAPSE", 5); mulw(w, "P_", 2); mulw(w, "DEL_", 2); mulw(w, "SWAP_", 2); setw(w, "GC", 5); setw(w, "CLEAR", 1); setw(w, "P_CREATE_PERSISTENT", 1); setw(w, "P_CREATE_SHARED", 1); setw(w, "RESERVE", 3); }
         if (prop == "C04") { mulw(w, "DEL_", 3); setw(w, "GC", 12); setw(w, "MODE", 5); }
         if (prop == "C09") { setw(w, "SET_F", 0); setw(w, "SET_C", 0); setw(w, "ADD_TET", 18); setw(w, "BU", 3); setw(w, "DEL_C", 6); setw(w, "DEL_F", 4); }
         if (prop == "C11") { setw(w, "BAD_FACE", 8); setw(w, "BAD_CELL", 8); mulw(w, "ADD_", 2); setw(w, "BU", 3); }
